@@ -177,15 +177,15 @@ type c10IdleResult struct {
 }
 
 type c10IdleKey struct {
-	key        string
-	val        []byte
-	touched    bool
-	lastStart  time.Time // start of the last successful access
-	lastEnd    time.Time
-	lastKind   string
-	gone       bool
-	abandoned  bool
-	goneAt     time.Time
+	key       string
+	val       []byte
+	touched   bool
+	lastStart time.Time // start of the last successful access
+	lastEnd   time.Time
+	lastKind  string
+	gone      bool
+	abandoned bool
+	goneAt    time.Time
 }
 
 func c10StartIdleCluster(cs c10IdleCase) (*cluster.Cluster, error) {
@@ -193,8 +193,8 @@ func c10StartIdleCluster(cs c10IdleCase) (*cluster.Cluster, error) {
 		Replicas:          cs.R,
 		NoInternalRetries: true,
 		Partitions:        uint64(cs.P),
-		TableSize:       cs.TableSize,
-		EvictionWorkers: 8,
+		TableSize:         cs.TableSize,
+		EvictionWorkers:   8,
 		DMaps: func(d *config.DMaps) {
 			d.MaxIdleDuration = cs.GlobalWindow
 			d.Custom = map[string]config.DMap{}
